@@ -711,9 +711,13 @@ example : fromtimestamp (some (.int (-62135510400))) = some (.datetime (.int (-6
 /-- **`Row.as_bytes` as written, from its first statement on**: `packb(tuple(self), option=…, default=…)` with the
 serialiser orso/row.py imports under that name (ormsgpack's), its refusal (`TypeError`) ending the call, then the framing —
 computes `encodeRow` on the items of the row, for either kind of row object and whatever size `nbytes` has cached on
-it before.  (Another serialiser, another argument than `tuple(self)`, a read of the cached size: no longer checks.) -/
-theorem generated_as_bytes_whole_eq_model (d : Bool) (c : Option Nat) (ts : Nat) (row : List PyVal) :
-    Gen.RowFns.as_bytes d c ts row = encodeRow ts row := by
+it before **and whatever record is kept on the object** (`k`: the value of an attribute of `self` other than the size that
+`nbytes` / `as_bytes` assign — round 6).  `as_bytes` is a function of the items as they are now and of the clock, of nothing
+else.  (Another serialiser, another argument than `tuple(self)`, a read of the cached size, **a kept record handed out
+instead of serialising the items** — `if self._cached_bytes is not None: return self._cached_bytes`, translated
+`if kept ≠ none then RowGlue.retKept kept else …` —: no longer checks.) -/
+theorem generated_as_bytes_whole_eq_model (d : Bool) (c : Option Nat) (k : Option Bytes) (ts : Nat) (row : List PyVal) :
+    Gen.RowFns.as_bytes d c k ts row = encodeRow ts row := by
   unfold encodeRow encodeWith packRow
   have h := fun p => generated_as_bytes_eq_model d ts p
   unfold Gen.RowFns.as_bytes_frame at h
@@ -726,10 +730,12 @@ theorem generated_as_bytes_whole_eq_model (d : Bool) (c : Option Nat) (ts : Nat)
 /-- The whole encoder on a concrete row of several value kinds, on an integer past 64 bits (refused by the codec), and
 with / without a cached size. -/
 example :
-    (Gen.RowFns.as_bytes true none 7 [.int 1, .str "a"]).toOption = some [16, 0, 0, 0, 0, 4, 0, 0, 0, 0, 0, 0, 0, 7, 0x92, 1, 0xa1, 0x61] ∧
-    (Gen.RowFns.as_bytes true (some 99) 7 [.int 1, .str "a"]).toOption = (Gen.RowFns.as_bytes false none 7 [.int 1, .str "a"]).toOption ∧
-    (match Gen.RowFns.as_bytes true none 7 [.int (2 ^ 64)] with | .error .codec => true | _ => false) = true ∧
-    (Gen.RowFns.as_bytes true none 7 [.int (2 ^ 64 - 1)]).toOption.map (·.length) = some 24 := by decide
+    (Gen.RowFns.as_bytes true none none 7 [.int 1, .str "a"]).toOption = some [16, 0, 0, 0, 0, 4, 0, 0, 0, 0, 0, 0, 0, 7, 0x92, 1, 0xa1, 0x61] ∧
+    (Gen.RowFns.as_bytes true (some 99) none 7 [.int 1, .str "a"]).toOption = (Gen.RowFns.as_bytes false none none 7 [.int 1, .str "a"]).toOption ∧
+    (Gen.RowFns.as_bytes true (some 15) (some [16, 0, 0, 0, 0, 1, 0, 0, 0, 0, 0, 0, 0, 7, 0x90]) 7 [.list [.int 1]]).toOption =
+      some [16, 0, 0, 0, 0, 3, 0, 0, 0, 0, 0, 0, 0, 7, 0x91, 0x91, 1] ∧
+    (match Gen.RowFns.as_bytes true none none 7 [.int (2 ^ 64)] with | .error .codec => true | _ => false) = true ∧
+    (Gen.RowFns.as_bytes true none none 7 [.int (2 ^ 64 - 1)]).toOption.map (·.length) = some 24 := by decide
 
 /-- **The size guard, by its numbers** (orso/row.py:46,173: `if record_size > MAXIMUM_RECORD_SIZE`, 16 MiB): with a 64-bit
 clock the translated `as_bytes` emits a record **iff the payload has at most 16·1024·1024 bytes** — exactly at the limit it
@@ -750,8 +756,8 @@ theorem as_bytes_accepts_iff_payload_le_limit (d : Bool) (ts : Nat) (payload : B
   · rw [if_pos ((ho _).2 (by omega))]; simp [hl]
 
 /-- The same for a row: `as_bytes` emits a record iff the codec packs the row and the packed form is within the limit. -/
-theorem as_bytes_row_accepts_iff (d : Bool) (c : Option Nat) (ts : Nat) (row : List PyVal) (hts : ts < 2 ^ 64) :
-    (∃ r, Gen.RowFns.as_bytes d c ts row = .ok r) ↔ ∃ p, packRow row = some p ∧ p.length ≤ 16 * 1024 * 1024 := by
+theorem as_bytes_row_accepts_iff (d : Bool) (c : Option Nat) (k : Option Bytes) (ts : Nat) (row : List PyVal) (hts : ts < 2 ^ 64) :
+    (∃ r, Gen.RowFns.as_bytes d c k ts row = .ok r) ↔ ∃ p, packRow row = some p ∧ p.length ≤ 16 * 1024 * 1024 := by
   rw [generated_as_bytes_whole_eq_model]
   unfold encodeRow encodeWith
   cases hp : packRow row with
@@ -777,18 +783,21 @@ theorem emitted_is_header_then_payload (d : Bool) (ts : Nat) (payload r : Bytes)
 
 /-! ### `Row.nbytes`: how a `DataFrame` reaches the guard, and one object used several times -/
 
-/-- `Row.nbytes` as written is "size the row once, keep the size on the object". -/
-theorem generated_nbytes_eq_model (d : Bool) (c : Option Nat) (a : Except EncErr Bytes) :
-    Gen.RowFns.nbytes d c a = RowGlue.nbytesModel d c a := by
-  unfold Gen.RowFns.nbytes RowGlue.nbytesModel RowGlue.bindSize RowGlue.storeCached RowGlue.lenOf
-  cases c <;> cases a <;> cases d <;> rfl
+/-- `Row.nbytes` as written is "size the row once, keep the size on the object": its answer and the size it leaves on
+the object, whatever record is kept on the object (`k`) — and whatever the function does to that component (a record
+stored and never handed out would be harmless; what `as_bytes` does with a kept record is `generated_as_bytes_whole_eq_model`). -/
+theorem generated_nbytes_eq_model (d : Bool) (c : Option Nat) (k : Option Bytes) (a : Except EncErr Bytes) :
+    ((Gen.RowFns.nbytes d c k a).1, (Gen.RowFns.nbytes d c k a).2.1) = RowGlue.nbytesModel d c a := by
+  cases c <;> cases a <;> cases d <;> cases k <;> rfl
 
 /-- **`DataFrame.append` reaches the size guard through `Row.nbytes`** (dataframe.py:153 sizes the new row before it keeps
 it): on a fresh row object of a frame's class (it has a `__dict__`, nothing cached) whose items pack to `p`, `nbytes`
 answers `HEADER_SIZE + len(p)` and keeps it when `p` has at most 16·1024·1024 bytes, and ends in the data error of
 `as_bytes` — leaving nothing cached — when it has more.  Exactly at the limit the row is sized, one byte past it refused. -/
-theorem nbytes_reaches_the_guard (ts : Nat) (hts : ts < 2 ^ 64) (row : List PyVal) (p : Bytes) (hp : packRow row = some p) :
-    Gen.RowFns.nbytes true none (Gen.RowFns.as_bytes true none ts row) =
+theorem nbytes_reaches_the_guard (ts : Nat) (hts : ts < 2 ^ 64) (row : List PyVal) (p : Bytes) (hp : packRow row = some p)
+    (k : Option Bytes) :
+    ((Gen.RowFns.nbytes true none k (Gen.RowFns.as_bytes true none k ts row)).1,
+      (Gen.RowFns.nbytes true none k (Gen.RowFns.as_bytes true none k ts row)).2.1) =
       if p.length ≤ 16 * 1024 * 1024 then (.ok (some (Gen.Row.headerSize + p.length)), some (Gen.Row.headerSize + p.length))
       else (.error .tooLarge, none) := by
   rw [generated_nbytes_eq_model, generated_as_bytes_whole_eq_model]
@@ -802,7 +811,7 @@ theorem nbytes_reaches_the_guard (ts : Nat) (hts : ts < 2 ^ 64) (row : List PyVa
     obtain ⟨r, hr⟩ := ((hg.1 hts).2 hl)
     have hlen := (emitted_is_header_then_payload true ts p r (by rw [generated_as_bytes_eq_model]; exact hr)).1
     rw [hr]
-    simp [RowGlue.nbytesModel, RowGlue.bindSize, RowGlue.lenOf, RowGlue.storeCached, Except.map, hlen]
+    simp [RowGlue.nbytesModel, hlen]
   · rw [if_neg hl, hg.2 (by omega)]
     rfl
 
@@ -825,62 +834,158 @@ theorem encodeRow_size (ts : Nat) (hts : ts < 2 ^ 64) (row : List PyVal) :
     · rw [hg.2 (by omega), if_pos (by omega)]
       rfl
 
-/-- **One row object used any number of times, in any order** (`as_bytes`, `nbytes`, `as_bytes` again, …; 64-bit clocks):
-every `as_bytes` answers exactly what it answers on a fresh object — the record of the row at that call's clock, or the
-same refusal — and every `nbytes` answers the size of that record (`AttributeError` on an instance of `Row` itself, which
-cannot keep it).  No earlier call on the object changes a later record ("every record the encoder emits": also the
-second and the third one of the same object, also after a `DataFrame` sized the row). -/
-theorem object_history_irrelevant (d : Bool) (row : List PyVal) (ops : List RowObject.Op)
-    (hts : ∀ op ∈ ops, match op with | .asBytes ts => ts < 2 ^ 64 | .nbytes ts => ts < 2 ^ 64)
-    (c : Option Nat) (hc : c = none ∨ (d = true ∧ ∃ n, c = some n ∧ RowObject.sizeOf row = .ok n)) :
-    RowObject.run d row c ops = ops.map (fun op => match op with
+/-- One call of the machine against the specification: whatever record is kept on the object (`k`), an `nbytes` call on an
+object not sized yet answers `sizeSpec` and keeps as size exactly what `spec` says. -/
+theorem nbytes_step (d : Bool) (row : List PyVal) (k : Option Bytes) (ts : Nat) (hts : ts < 2 ^ 64) :
+    ((Gen.RowFns.nbytes d none k (Gen.RowFns.as_bytes d none k ts row)).1,
+      (Gen.RowFns.nbytes d none k (Gen.RowFns.as_bytes d none k ts row)).2.1) =
+      (RowObject.sizeSpec d row, RowObject.sizedTo (RowObject.sizeSpec d row)) := by
+  have hsz := encodeRow_size ts hts row
+  rw [generated_nbytes_eq_model, generated_as_bytes_whole_eq_model]
+  cases he : encodeRow ts row with
+  | error e =>
+    rw [he] at hsz
+    have hs : RowObject.sizeOf row = .error e := by rw [← hsz]; rfl
+    simp [RowObject.sizeSpec, RowObject.sizedTo, hs, RowGlue.nbytesModel]
+  | ok r =>
+    rw [he] at hsz
+    have hs : RowObject.sizeOf row = .ok r.length := by rw [← hsz]; rfl
+    cases d <;> simp [RowObject.sizeSpec, RowObject.sizedTo, hs, RowGlue.nbytesModel]
+
+/-- **One row object used any number of times, in any order, and edited in place in between** (`as_bytes`, `nbytes`,
+an in-place edit of a list / map inside the row, `as_bytes` again, …; 64-bit clocks; from *any* state of the object: any
+cached size, any kept record): the machine made of the translated `Row.as_bytes` / `Row.nbytes` answers what
+`RowObject.spec` says — **every `as_bytes` is the record of the items as they are at that moment** (`encodeRow ts row`
+with `row` the value after the last edit), never one made from an earlier value; `nbytes` answers the size kept from the
+first sizing.  No earlier call on the object changes a later record ("every record the encoder emits": also the second
+and the third one of the same object, also after a `DataFrame` sized the row, also after the row's nested values
+changed since). -/
+theorem object_history_irrelevant (d : Bool) (ops : List RowObject.Op) (hts : RowObject.Clocks64 ops)
+    (row : List PyVal) (c : Option Nat) (k : Option Bytes) :
+    RowObject.run d ⟨row, c, k⟩ ops = RowObject.spec d row c ops := by
+  induction ops generalizing row c k with
+  | nil => simp [RowObject.run, RowObject.spec]
+  | cons op ops ih =>
+    have hrest : RowObject.Clocks64 ops := fun op' h' => hts op' (by simp [h'])
+    cases op with
+    | asBytes ts =>
+      simp only [RowObject.run, RowObject.step, RowObject.spec, generated_as_bytes_whole_eq_model]
+      rw [ih hrest]
+    | edit row' =>
+      simp only [RowObject.run, RowObject.step, RowObject.spec]
+      rw [ih hrest]
+    | nbytes ts =>
+      have h1 : ts < 2 ^ 64 := hts (.nbytes ts) (by simp)
+      cases c with
+      | some n =>
+        have h2 := Prod.mk.inj (generated_nbytes_eq_model d (some n) k (Gen.RowFns.as_bytes d (some n) k ts row))
+        have h2 : _ = Except.ok (some n) ∧ _ = some n := h2
+        simp only [RowObject.run, RowObject.step, RowObject.spec, h2.1, h2.2]
+        rw [ih hrest]
+      | none =>
+        have h2 := Prod.mk.inj (nbytes_step d row k ts h1)
+        simp only [RowObject.run, RowObject.step, RowObject.spec, h2.1, h2.2]
+        rw [ih hrest]
+
+/-- Non-vacuity: a frame row sized, serialised, sized again, serialised again; the same on an instance of `Row` itself;
+a row holding a list: sized (15 + 2 bytes), the list edited in place (one more element), serialised — the record is that
+of the edited row (one byte longer, last byte the new element), the size answered afterwards is still the one kept. -/
+example :
+    (RowObject.run true (RowObject.fresh [.int 1]) [.nbytes 5, .asBytes 6, .nbytes 7, .asBytes 8]).map (fun r => match r with
+        | .record (.ok b) => b.length + b.getLast!.toNat * 1000 | .size (.ok (some n)) => n | _ => 0) = [16, 1016, 16, 1016] ∧
+    (RowObject.run false (RowObject.fresh [.int 1]) [.nbytes 5, .asBytes 6]).map (fun r => match r with
+        | .record (.ok b) => b.length | .size (.error .attribute) => 77 | _ => 0) = [77, 16] ∧
+    (RowObject.run true (RowObject.fresh [.list [.int 1]]) [.nbytes 5, .edit [.list [.int 1, .int 9]], .asBytes 6, .nbytes 7]).map (fun r => match r with
+        | .record (.ok b) => b.length + b.getLast!.toNat * 1000 | .size (.ok (some n)) => n | .edited => 1 | _ => 0) = [17, 1, 9018, 17] := by decide
+
+/-- **Every record is that of the object's current value**: in any history (calls and in-place edits, 64-bit clocks,
+any state of the object to begin with), the answer to the `i`-th step, when that step is `as_bytes` at clock `ts`, is
+`encodeRow ts` of the items the object has after the edits among the first `i` steps — by `row_roundtrip` it decodes to
+exactly those items (the row AS IT IS NOW), not to what the row was when it was last sized or serialised. -/
+theorem records_follow_edits (d : Bool) (ops : List RowObject.Op) (hts : RowObject.Clocks64 ops)
+    (row : List PyVal) (c : Option Nat) (k : Option Bytes) (i : Nat) (ts : Nat) (hi : ops[i]? = some (.asBytes ts)) :
+    (RowObject.run d ⟨row, c, k⟩ ops)[i]? = some (.record (encodeRow ts (RowObject.valueAfter row (ops.take i)))) := by
+  rw [object_history_irrelevant d ops hts]
+  clear hts
+  induction ops generalizing row c i with
+  | nil => simp at hi
+  | cons op ops ih =>
+    cases i with
+    | zero =>
+      simp only [List.getElem?_cons_zero, Option.some.injEq] at hi
+      subst hi
+      simp [RowObject.spec, RowObject.valueAfter]
+    | succ i =>
+      simp only [List.getElem?_cons_succ] at hi
+      cases op with
+      | asBytes t => simpa [RowObject.spec, RowObject.valueAfter] using ih row c i hi
+      | edit row' => simpa [RowObject.spec, RowObject.valueAfter] using ih row' c i hi
+      | nbytes t =>
+        cases c with
+        | some n => simpa [RowObject.spec, RowObject.valueAfter] using ih row (some n) i hi
+        | none => simpa [RowObject.spec, RowObject.valueAfter] using ih row _ i hi
+
+/-- **Round trip of an edited object**: a row object that was sized / serialised, then had its nested lists / maps edited
+in place (now holding `row'`, without the reserved form), then serialised: whatever the machine answers to that last
+`as_bytes` decodes — by the translated `Row.from_bytes` — to `row'`, value for value and in order. -/
+theorem edited_object_roundtrip (d : Bool) (ops : List RowObject.Op) (hts : RowObject.Clocks64 ops)
+    (row row' : List PyVal) (c : Option Nat) (k : Option Bytes) (ts : Nat) (r : Bytes) (hr : NoReserved row')
+    (h : (RowObject.run d ⟨row, c, k⟩ (ops ++ [.edit row', .asBytes ts])).getLast? = some (.record (.ok r))) :
+    Gen.RowFns.from_bytes r = .row (row'.map Item.val) := by
+  have hrun : ∀ (o : RowObject.Obj) (ops : List RowObject.Op), RowObject.Clocks64 ops →
+      (RowObject.run d o (ops ++ [.edit row', .asBytes ts])).getLast? = some (.record (encodeRow ts row')) := by
+    intro o ops
+    induction ops generalizing o with
+    | nil => intro _; simp [RowObject.run, RowObject.step, generated_as_bytes_whole_eq_model]
+    | cons op ops ih =>
+      intro h'
+      have := ih (RowObject.step d o op).2 (fun op' hm => h' op' (by simp [hm]))
+      simp only [List.cons_append, RowObject.run]
+      rw [List.getLast?_cons_of_ne_nil (by cases ops <;> simp [RowObject.run])]
+      exact this
+  rw [hrun _ ops hts] at h
+  simp only [Option.some.injEq, RowObject.Res.record.injEq] at h
+  rw [generated_glue_eq_model]
+  unfold RowGlue.fromBytes RowGlue.callDecoder RowGlue.rowNew
+  rw [row_roundtrip ts row' r h hr]
+
+/-- The size an unedited object answers: on a history without edits, from a fresh object (or one holding its true
+size), every `nbytes` answers the size of the record every `as_bytes` of the history emits (`sizeSpec`). -/
+theorem unedited_object_sizes (d : Bool) (row : List PyVal) (ops : List RowObject.Op) (hts : RowObject.Clocks64 ops)
+    (hne : ∀ op ∈ ops, match op with | .edit _ => False | _ => True)
+    (c : Option Nat) (k : Option Bytes) (hc : c = none ∨ (d = true ∧ ∃ n, c = some n ∧ RowObject.sizeOf row = .ok n)) :
+    RowObject.run d ⟨row, c, k⟩ ops = ops.map (fun op => match op with
       | .asBytes ts => RowObject.Res.record (encodeRow ts row)
-      | .nbytes _ => RowObject.Res.size (RowObject.sizeSpec d row)) := by
+      | .nbytes _ => RowObject.Res.size (RowObject.sizeSpec d row)
+      | .edit _ => RowObject.Res.edited) := by
+  rw [object_history_irrelevant d ops hts]
+  clear hts
   induction ops generalizing c with
   | nil => rfl
   | cons op ops ih =>
-    have hrest : ∀ op' ∈ ops, match op' with | .asBytes ts => ts < 2 ^ 64 | .nbytes ts => ts < 2 ^ 64 :=
-      fun op' h' => hts op' (by simp [h'])
+    have hrest : ∀ op' ∈ ops, match op' with | .edit _ => False | _ => True := fun op' h' => hne op' (by simp [h'])
     cases op with
-    | asBytes ts =>
-      simp only [RowObject.run, RowObject.step, List.map_cons, generated_as_bytes_whole_eq_model]
-      rw [ih hrest c hc]
+    | edit r => exact (hne (.edit r) (by simp)).elim
+    | asBytes ts => simp only [RowObject.spec, List.map_cons]; rw [ih hrest c hc]
     | nbytes ts =>
-      have h1 : ts < 2 ^ 64 := hts (.nbytes ts) (by simp)
-      have hsz := encodeRow_size ts h1 row
-      simp only [RowObject.run, RowObject.step, List.map_cons, generated_as_bytes_whole_eq_model, generated_nbytes_eq_model]
       rcases hc with rfl | ⟨rfl, n, rfl, hn⟩
-      · -- nothing cached yet: the row is sized now
-        cases he : encodeRow ts row with
+      · simp only [RowObject.spec, List.map_cons]
+        congr 1
+        cases hs : RowObject.sizeOf row with
         | error e =>
-          rw [he] at hsz
-          have hs : RowObject.sizeOf row = .error e := by rw [← hsz]; rfl
-          have : RowGlue.nbytesModel d none (Except.error e : Except EncErr Bytes) = (.error e, none) := rfl
-          rw [this, ih hrest none (.inl rfl)]
-          simp [RowObject.sizeSpec, hs]
-        | ok r =>
-          rw [he] at hsz
-          have hs : RowObject.sizeOf row = .ok r.length := by rw [← hsz]; rfl
+          have : RowObject.sizedTo (RowObject.sizeSpec d row) = none := by simp [RowObject.sizeSpec, RowObject.sizedTo, hs]
+          rw [this]; exact ih hrest none (.inl rfl)
+        | ok n =>
           cases d with
           | false =>
-            have : RowGlue.nbytesModel false none (Except.ok r : Except EncErr Bytes) = (.error .attribute, none) := rfl
-            rw [this, ih hrest none (.inl rfl)]
-            simp [RowObject.sizeSpec, hs]
+            have : RowObject.sizedTo (RowObject.sizeSpec false row) = none := by simp [RowObject.sizeSpec, RowObject.sizedTo, hs]
+            rw [this]; exact ih hrest none (.inl rfl)
           | true =>
-            have : RowGlue.nbytesModel true none (Except.ok r : Except EncErr Bytes) = (.ok (some r.length), some r.length) := rfl
-            rw [this, ih hrest (some r.length) (.inr ⟨rfl, r.length, rfl, hs⟩)]
-            simp [RowObject.sizeSpec, hs]
-      · -- sized before: the kept size is answered, `as_bytes` is not evaluated
-        have : RowGlue.nbytesModel true (some n) (encodeRow ts row) = (.ok (some n), some n) := rfl
-        rw [this, ih hrest (some n) (.inr ⟨rfl, n, rfl, hn⟩)]
+            have : RowObject.sizedTo (RowObject.sizeSpec true row) = some n := by simp [RowObject.sizeSpec, RowObject.sizedTo, hs]
+            rw [this]; exact ih hrest (some n) (.inr ⟨rfl, n, rfl, hs⟩)
+      · simp only [RowObject.spec, List.map_cons]
+        rw [ih hrest (some n) (.inr ⟨rfl, n, rfl, hn⟩)]
         simp [RowObject.sizeSpec, hn]
-
-/-- Non-vacuity: a frame row sized, serialised, sized again, serialised again; the same on an instance of `Row` itself. -/
-example :
-    (RowObject.run true [.int 1] none [.nbytes 5, .asBytes 6, .nbytes 7, .asBytes 8]).map (fun r => match r with
-        | .record (.ok b) => b.length + b.getLast!.toNat * 1000 | .size (.ok (some n)) => n | _ => 0) = [16, 1016, 16, 1016] ∧
-    (RowObject.run false [.int 1] none [.nbytes 5, .asBytes 6]).map (fun r => match r with
-        | .record (.ok b) => b.length | .size (.error .attribute) => 77 | _ => 0) = [77, 16] := by decide
 
 /-! ### Rows with reserved items: what exactly happens to the form the statement excludes -/
 
@@ -980,9 +1085,9 @@ built from `{field: value}` over the distinct fields of its class, serialised by
 by the translated `Row.from_bytes`, comes back as the values in field order — whatever order the dictionary lists them in
 is irrelevant only through `dictGet`; stated here for the dictionary in field order. -/
 theorem dict_row_roundtrip (e : Bool) (fs : List String) (vs : List PyVal) (hn : fs.Nodup) (hl : fs.length = vs.length)
-    (d : Bool) (c : Option Nat) (ts : Nat) (r : Bytes) (hr : NoReserved vs) :
+    (d : Bool) (c : Option Nat) (k : Option Bytes) (ts : Nat) (r : Bytes) (hr : NoReserved vs) :
     ∃ items, Gen.RowFns.row_new (some fs) (.dict e (fs.zip vs)) = .ok items ∧ items = vs ∧
-      (Gen.RowFns.as_bytes d c ts items = .ok r → Gen.RowFns.from_bytes r = .row (vs.map Item.val)) := by
+      (Gen.RowFns.as_bytes d c k ts items = .ok r → Gen.RowFns.from_bytes r = .row (vs.map Item.val)) := by
   refine ⟨vs, ?_, rfl, fun h => ?_⟩
   · rw [(row_new_dict e fs (fs.zip vs)).1, dict_of_fields fs vs hn hl]
   · rw [generated_as_bytes_whole_eq_model] at h
